@@ -1,5 +1,239 @@
 package main
 
+import (
+	"fmt"
+	"go/ast"
+	"go/token"
+	"strconv"
+
+	"golang.org/x/tools/go/ast/astutil"
+)
+
+// rewriteChan puts goroutines, channels, select and context cancellation of one file onto verif/shim/vrt (see the
+// package comment of vrt for the mapping). It works on syntax only; the type checker of the subsequent build is the
+// safety net (a channel that was not rewritten does not fit a rewritten operation and the build fails = exit 2).
 func rewriteChan(fe *fileEdit, stats map[string]int) {
-	fatalf("chan rewriting not built yet")
+	used := false
+	vrt := func(name string) ast.Expr {
+		used = true
+		return &ast.SelectorExpr{X: ast.NewIdent("vrt"), Sel: ast.NewIdent(name)}
+	}
+	call := func(name string, args ...ast.Expr) *ast.CallExpr {
+		return &ast.CallExpr{Fun: vrt(name), Args: args}
+	}
+	isVrtCall := func(e ast.Expr, name string) (*ast.CallExpr, bool) {
+		c, ok := e.(*ast.CallExpr)
+		if !ok {
+			return nil, false
+		}
+		s, ok := c.Fun.(*ast.SelectorExpr)
+		if !ok {
+			return nil, false
+		}
+		x, ok := s.X.(*ast.Ident)
+		return c, ok && x.Name == "vrt" && s.Sel.Name == name
+	}
+	chanElem := func(e ast.Expr) (ast.Expr, bool) { // *vrt.Chan[T] -> T
+		st, ok := e.(*ast.StarExpr)
+		if !ok {
+			return nil, false
+		}
+		ix, ok := st.X.(*ast.IndexExpr)
+		if !ok {
+			return nil, false
+		}
+		s, ok := ix.X.(*ast.SelectorExpr)
+		if !ok {
+			return nil, false
+		}
+		x, ok := s.X.(*ast.Ident)
+		if !ok || x.Name != "vrt" || s.Sel.Name != "Chan" {
+			return nil, false
+		}
+		return ix.Index, true
+	}
+	tmp := 0
+	fresh := func(prefix string) *ast.Ident {
+		tmp++
+		return ast.NewIdent(fmt.Sprintf("_vrt_%s%d", prefix, tmp))
+	}
+	// doneOperand turns X.Done() (a context's done channel used as a channel operand) into vrt.Done(X)
+	doneOperand := func(e ast.Expr) ast.Expr {
+		if c, ok := e.(*ast.CallExpr); ok && len(c.Args) == 0 {
+			if s, ok := c.Fun.(*ast.SelectorExpr); ok && s.Sel.Name == "Done" {
+				stats["ctx.Done"]++
+				return call("Done", s.X)
+			}
+		}
+		return e
+	}
+
+	post := func(c *astutil.Cursor) bool {
+		switch n := c.Node().(type) {
+		case *ast.ChanType:
+			stats["chan-type"]++
+			c.Replace(&ast.StarExpr{X: &ast.IndexExpr{X: vrt("Chan"), Index: n.Value}})
+
+		case *ast.CallExpr:
+			if id, ok := n.Fun.(*ast.Ident); ok {
+				switch id.Name {
+				case "make":
+					if len(n.Args) >= 1 {
+						if elem, ok := chanElem(n.Args[0]); ok {
+							size := ast.Expr(&ast.BasicLit{Kind: token.INT, Value: "0"})
+							if len(n.Args) == 2 {
+								size = n.Args[1]
+							}
+							stats["make-chan"]++
+							c.Replace(&ast.CallExpr{Fun: &ast.IndexExpr{X: vrt("MakeChan"), Index: elem}, Args: []ast.Expr{size}})
+						}
+					}
+				case "close":
+					if len(n.Args) == 1 {
+						stats["close"]++
+						c.Replace(call("Close", n.Args[0]))
+					}
+				}
+			}
+			if s, ok := n.Fun.(*ast.SelectorExpr); ok {
+				if x, ok := s.X.(*ast.Ident); ok && x.Name == "context" && s.Sel.Name == "WithCancel" {
+					stats["context.WithCancel"]++
+					n.Fun = vrt("WithCancel")
+				}
+			}
+
+		case *ast.SendStmt:
+			stats["send"]++
+			c.Replace(&ast.ExprStmt{X: call("Send", n.Chan, n.Value)})
+
+		case *ast.UnaryExpr:
+			if n.Op == token.ARROW {
+				stats["recv"]++
+				c.Replace(call("Recv", doneOperand(n.X)))
+			}
+
+		case *ast.AssignStmt:
+			if len(n.Lhs) == 2 && len(n.Rhs) == 1 {
+				if rc, ok := isVrtCall(n.Rhs[0], "Recv"); ok {
+					rc.Fun = vrt("Recv2")
+				}
+			}
+
+		case *ast.ValueSpec:
+			if len(n.Names) == 2 && len(n.Values) == 1 {
+				if rc, ok := isVrtCall(n.Values[0], "Recv"); ok {
+					rc.Fun = vrt("Recv2")
+				}
+			}
+
+		case *ast.GoStmt:
+			stats["go"]++
+			var pre []ast.Stmt
+			args := make([]ast.Expr, len(n.Call.Args))
+			for i, a := range n.Call.Args {
+				id := fresh("ga")
+				pre = append(pre, &ast.AssignStmt{Lhs: []ast.Expr{id}, Tok: token.DEFINE, Rhs: []ast.Expr{a}})
+				args[i] = id
+			}
+			inner := &ast.CallExpr{Fun: n.Call.Fun, Args: args, Ellipsis: n.Call.Ellipsis}
+			if _, isLit := n.Call.Fun.(*ast.FuncLit); isLit {
+				inner.Fun = &ast.ParenExpr{X: n.Call.Fun}
+			}
+			body := &ast.FuncLit{Type: &ast.FuncType{Params: &ast.FieldList{}}, Body: &ast.BlockStmt{List: []ast.Stmt{&ast.ExprStmt{X: inner}}}}
+			pre = append(pre, &ast.ExprStmt{X: call("Go", body)})
+			c.Replace(&ast.BlockStmt{List: pre})
+
+		case *ast.SelectStmt:
+			stats["select"]++
+			var (
+				pre     []ast.Stmt
+				cases   []ast.Expr
+				clauses []ast.Stmt
+				sel     = fresh("sel")
+			)
+			for i, cl := range n.Body.List {
+				cc := cl.(*ast.CommClause)
+				idx := &ast.BasicLit{Kind: token.INT, Value: strconv.Itoa(i)}
+				body := cc.Body
+				switch comm := cc.Comm.(type) {
+				case nil:
+					cases = append(cases, call("DefaultCase"))
+				case *ast.ExprStmt:
+					if sc, ok := isVrtCall(comm.X, "Send"); ok {
+						ch, v := fresh("c"), fresh("v")
+						pre = append(pre, &ast.AssignStmt{Lhs: []ast.Expr{ch, v}, Tok: token.DEFINE, Rhs: []ast.Expr{sc.Args[0], sc.Args[1]}})
+						cases = append(cases, call("SendCase", ch, v))
+					} else if rc, ok := isVrtCall(comm.X, "Recv"); ok {
+						ch := fresh("c")
+						pre = append(pre, &ast.AssignStmt{Lhs: []ast.Expr{ch}, Tok: token.DEFINE, Rhs: []ast.Expr{rc.Args[0]}})
+						cases = append(cases, call("RecvCase", ch))
+					} else {
+						fatalf("%s: select case %d: unsupported communication", fe.path, i)
+					}
+				case *ast.AssignStmt:
+					rc, ok := isVrtCall(comm.Rhs[0], "Recv")
+					if !ok {
+						rc, ok = isVrtCall(comm.Rhs[0], "Recv2")
+					}
+					if !ok {
+						fatalf("%s: select case %d: unsupported communication", fe.path, i)
+					}
+					ch := fresh("c")
+					pre = append(pre, &ast.AssignStmt{Lhs: []ast.Expr{ch}, Tok: token.DEFINE, Rhs: []ast.Expr{rc.Args[0]}})
+					cases = append(cases, call("RecvCase", ch))
+					lhs := comm.Lhs
+					if len(lhs) == 1 {
+						lhs = []ast.Expr{lhs[0], ast.NewIdent("_")}
+					}
+					body = append([]ast.Stmt{&ast.AssignStmt{Lhs: lhs, Tok: comm.Tok, Rhs: []ast.Expr{call("Got", ch, sel)}}}, body...)
+				default:
+					fatalf("%s: select case %d: unsupported communication %T", fe.path, i, comm)
+				}
+				clauses = append(clauses, &ast.CaseClause{List: []ast.Expr{idx}, Body: body})
+			}
+			// a select whose cases all terminate is a terminating statement; keep that property for the switch
+			clauses = append(clauses, &ast.CaseClause{Body: []ast.Stmt{&ast.ExprStmt{X: &ast.CallExpr{Fun: ast.NewIdent("panic"), Args: []ast.Expr{&ast.BasicLit{Kind: token.STRING, Value: `"vrt: select returned no case"`}}}}}})
+			sw := &ast.SwitchStmt{
+				Init: &ast.AssignStmt{Lhs: []ast.Expr{sel}, Tok: token.DEFINE, Rhs: []ast.Expr{call("Select", cases...)}},
+				Tag:  &ast.SelectorExpr{X: sel, Sel: ast.NewIdent("Index")},
+				Body: &ast.BlockStmt{List: clauses},
+			}
+			c.Replace(&ast.BlockStmt{List: append(pre, sw)})
+		}
+		return true
+	}
+	astutil.Apply(fe.file, nil, post)
+
+	// fail closed: nothing that should have been intercepted may remain
+	ast.Inspect(fe.file, func(n ast.Node) bool {
+		switch x := n.(type) {
+		case *ast.ChanType, *ast.SendStmt, *ast.SelectStmt, *ast.GoStmt:
+			fatalf("INSTRUMENTATION-INCOMPLETE: %s: %T left after rewriting", fe.path, n)
+		case *ast.UnaryExpr:
+			if x.Op == token.ARROW {
+				fatalf("INSTRUMENTATION-INCOMPLETE: %s: receive left after rewriting", fe.path)
+			}
+		case *ast.CallExpr:
+			if s, ok := x.Fun.(*ast.SelectorExpr); ok {
+				if id, ok := s.X.(*ast.Ident); ok && id.Name == "context" {
+					switch s.Sel.Name {
+					case "WithTimeout", "WithDeadline", "WithCancelCause", "AfterFunc", "WithoutCancel":
+						fatalf("INSTRUMENTATION-INCOMPLETE: %s: context.%s is not modelled", fe.path, s.Sel.Name)
+					}
+				}
+			}
+		}
+		return true
+	})
+
+	if used {
+		astutil.AddNamedImport(fe.fset, fe.file, "vrt", "verif/shim/vrt")
+		fe.dirty = true
+	}
+	// imports that the rewrite made unused
+	for _, imp := range []string{"context"} {
+		if !astutil.UsesImport(fe.file, imp) {
+			astutil.DeleteImport(fe.fset, fe.file, imp)
+		}
+	}
 }
